@@ -7,7 +7,7 @@
    its wire-name list (nqubits = its length) and its gate list; gates are (kind, tag, positions)
    as in C09; for is_satisfied the tag is the class of the gate and [native] a predicate on it. *)
 From Coq Require Import List Arith Bool Lia.
-From QV Require Import C09.Trace C09.ModelRouter C09.ModelBlocks.
+From QV Require Import C09.Trace C09.ModelRouter C09.ModelBlocks C09.ModelStar C09.ModelDag.
 Import ListNotations.
 
 Record circ := mkC { cwires : list nat; cgates : list gate }.
@@ -15,10 +15,20 @@ Definition cn (c : circ) : nat := length (cwires c).
 
 Record device := mkD { dnodes : list nat; dedges : list (nat * nat) }.
 
-(* ---- pipeline.restrict_connectivity_qubits (connectedness is checked by networkx: oracle) *)
+(* ---- pipeline.restrict_connectivity_qubits: the selected qubits must be device nodes
+   (ConnectivityError otherwise), the edges are those with both ends selected, and the restricted
+   graph must be connected (nx.is_connected; modelled by a breadth-first closure from the first
+   selected node over the symmetrised edges; the empty selection makes networkx raise) *)
+Definition sym_edges (es : list (nat * nat)) : list (nat * nat) := es ++ map (fun e => (snd e, fst e)) es.
+Definition connectedb (nodes : list nat) (es : list (nat * nat)) : bool :=
+  match nodes with
+  | [] => false
+  | v :: _ => forallb (fun w => mem w (reach_set (sym_edges es) (length nodes) [v])) nodes
+  end.
 Definition restrict (d : device) (qs : list nat) : option device :=
   if subsetb qs (dnodes d)
-  then Some (mkD qs (filter (fun e => mem (fst e) qs && mem (snd e) qs) (dedges d)))
+  then let es := filter (fun e => mem (fst e) qs && mem (snd e) qs) (dedges d) in
+       if connectedb qs es then Some (mkD qs es) else None
   else None.
 
 (* ---- asserts.py *)
@@ -132,3 +142,27 @@ Fixpoint run_passes (d : device) (native : gate -> bool) (st : pstate) (ps : lis
 
 Definition is_prep (p : pass) : bool := match p with PPre _ | PPlace _ => true | _ => false end.
 Definition is_unroll (p : pass) : bool := match p with PUnroll _ => true | _ => false end.
+
+(* ---- placer.StarConnectivityPlacer.__call__ (concrete): the first two-qubit gate that does not
+   involve the middle qubit decides which wire is exchanged with the middle one.
+   [mid] = position of the middle node in wire_names.  None = raises PlacementError. *)
+Fixpoint star_placer_scan (n mid : nat) (queue : list gate) : option (option nat) :=
+  match queue with
+  | [] => Some None
+  | g :: rest =>
+      if is_meas g then star_placer_scan n mid rest
+      else if 2 <? nq g then None
+      else match gqs g with
+           | [a; b] =>
+               if negb (mem mid [a; b])
+               then option_map Some (find_connected a (if a =? b then [a] else [a; b]) rest (seq 0 n))
+               else star_placer_scan n mid rest
+           | _ => star_placer_scan n mid rest
+           end
+  end.
+Definition star_placer (mid : nat) (c : circ) : option (list nat) :=
+  match star_placer_scan (cn c) mid (cgates c) with
+  | None => None
+  | Some None => Some (cwires c)
+  | Some (Some nm) => Some (swap_entries (cwires c) mid nm)
+  end.
